@@ -1,9 +1,10 @@
 import DoviModel.Model.Export
 import DoviModel.Model.Json
 import DoviModel.Proofs.EditGenProof
+import DoviModel.Proofs.SummaryProof
 /-! # C16 — info/export are faithful views -/
 namespace Dovi.C16
-open Dovi Dovi.Export Dovi.Editor Dovi.EditGenProof
+open Dovi Dovi.Export Dovi.Editor Dovi.EditGenProof Dovi.SummaryProof
 
 /-- every listed scene index is a frame whose scene-refresh flag is 1 -/
 theorem scenes_sound (l : List Rpu) (i : Nat) (h : i ∈ scenes l) :
@@ -105,7 +106,11 @@ whose L5 offsets are four non-negative numbers per frame (frames without L5 / wi
 `[0,0,0,0]`), and `target` any list of the same length whose frames have DM data with a CM v2.9 container.
 Executing the editor model with the exported config (`{"active_area": {"crop": true, "presets": …,
 "edits": {"s-e": id}}}` with the tool's key text `Str.fmtKey`) on `target` succeeds, keeps every frame, and frame
-`i` of the result has exactly the L5 offsets of frame `i` of `l`. -/
+`i` of the result has exactly the L5 offsets of frame `i` of `l`.
+
+The hypothesis `HasV29` on the target frames (DM data with a CM v2.9 container — the place an L5 block lives in; true
+of every parsed RPU that has DM data) is NEEDED: on a target frame without DM data the replay reports success but
+leaves zero offsets, see the witness `l5_replay_corner_no_dm` below. -/
 theorem l5_export_replays (l target : List Rpu) (hsize : l.length ≤ 2 ^ 64)
     (hlen : target.length = l.length) (hwf : ∀ r ∈ l, L5Wf r) (hv : ∀ r ∈ target, HasV29 r) :
     ∃ out, execute (l5EditorConfig Str.fmtKey (level5Config l)) (target.map some) = .ok out ∧
@@ -175,12 +180,164 @@ theorem l5_replay_corner_no_dm :
 has no separate definition for the array, the harness compares element `i` with `info -f i` on the real CLI) -/
 def exportAll (l : List Rpu) : Json := .arr (l.map Rpu.toJson)
 
-/-- **export_all_length_order** — one element per RPU, in file order, each the frame's `info -f` view -/
+/-- **export_all_length_order** — NOT a theorem about the tool: it only unfolds the definition `exportAll`
+introduced just above in this file (the exported array := the list of per-frame `Rpu.toJson` views, one per RPU, in
+order). The tie between `export -d all` element `i` and `info -f i` of the real CLI is the harness oracle, not a
+Lean statement; the per-frame view `Rpu.toJson` itself is validated differentially. -/
 theorem export_all_length_order (l : List Rpu) :
     ∃ js, exportAll l = .arr js ∧ js.length = l.length ∧ ∀ i : Nat, js[i]? = (l[i]?).map Rpu.toJson :=
   ⟨l.map Rpu.toJson, rfl, by simp, fun i => by simp⟩
 
 /-- the summary's frame count is the list length -/
 theorem summary_count (l : List Rpu) : (summary l).count = l.length := by simp [summary]
+
+/-! ## `info --summary`: the figures equal the values computed from the per-frame data -/
+
+/-- **summary_maxcll_maxfall** — the three L1 figures of the summary (as PQ codes; the tool prints max_pq as
+"MaxCLL" and avg_pq as "MaxFALL" after `pq_to_nits`) are the maxima over the frames of the per-frame L1 min_pq /
+max_pq / avg_pq (`l1Of`: frames without L1 count as the clamped zero block of the CM version the summary
+assumes, `cm40Any l`): each figure is attained by some frame and dominates every frame -/
+theorem summary_maxcll_maxfall (l : List Rpu) (hne : l ≠ []) :
+    ((∃ r ∈ l, (summary l).maxL1.1 = (l1Of (cm40Any l) r).getD 0 0) ∧
+      ∀ r ∈ l, (l1Of (cm40Any l) r).getD 0 0 ≤ (summary l).maxL1.1) ∧
+    ((∃ r ∈ l, (summary l).maxL1.2.1 = (l1Of (cm40Any l) r).getD 1 0) ∧
+      ∀ r ∈ l, (l1Of (cm40Any l) r).getD 1 0 ≤ (summary l).maxL1.2.1) ∧
+    ((∃ r ∈ l, (summary l).maxL1.2.2 = (l1Of (cm40Any l) r).getD 2 0) ∧
+      ∀ r ∈ l, (l1Of (cm40Any l) r).getD 2 0 ≤ (summary l).maxL1.2.2) := by
+  rw [summary_maxL1]
+  have key : ∀ k : Nat, (∃ r ∈ l, maxOf ((l.map (l1Of (cm40Any l))).map (·.getD k 0)) = (l1Of (cm40Any l) r).getD k 0) ∧
+      ∀ r ∈ l, (l1Of (cm40Any l) r).getD k 0 ≤ maxOf ((l.map (l1Of (cm40Any l))).map (·.getD k 0)) := by
+    intro k
+    obtain ⟨h1, h2⟩ := maxOf_spec ((l.map (l1Of (cm40Any l))).map (·.getD k 0)) (by simpa using hne)
+    constructor
+    · rw [List.mem_map] at h1
+      obtain ⟨v, hv, he⟩ := h1
+      rw [List.mem_map] at hv
+      obtain ⟨r, hr, rfl⟩ := hv
+      exact ⟨r, hr, he.symm⟩
+    · intro r hr
+      exact h2 _ (List.mem_map.mpr ⟨_, List.mem_map.mpr ⟨r, hr, rfl⟩, rfl⟩)
+  exact ⟨key 0, key 1, key 2⟩
+
+/-- with no frames the three figures are 0 -/
+theorem summary_maxl1_empty : (summary []).maxL1 = (0, 0, 0) := by decide
+
+/-- the CM version assumed for frames without L1 is v4.0 iff some frame has a CM v4.0 container -/
+theorem cm40Any_iff (l : List Rpu) :
+    cm40Any l = true ↔ ∃ r ∈ l, ∃ d, r.vdr_dm_data = some d ∧ d.cmv40.isSome = true := by
+  unfold cm40Any v2Count
+  simp only [decide_eq_true_eq, gt_iff_lt, List.length_pos_iff_exists_mem, List.mem_filter]
+  constructor
+  · rintro ⟨r, hr, h⟩
+    unfold hasCm40 at h
+    cases hd : r.vdr_dm_data with
+    | none => simp [hd] at h
+    | some d => exact ⟨r, hr, d, hd, by simpa [hd] using h⟩
+  · rintro ⟨r, hr, d, hd, h⟩
+    exact ⟨r, hr, by simp [hasCm40, hd, h]⟩
+
+/-- **mem_l2_targets_iff** — a target code is in the summary's L2 list iff some frame carries an L2 block with that
+`target_max_pq`; the list has no duplicates -/
+theorem mem_l2_targets_iff (l : List Rpu) (x : Int) :
+    x ∈ (summary l).l2Targets ↔
+      ∃ r ∈ l, ∃ d, r.vdr_dm_data = some d ∧ ∃ b ∈ d.levelBlocks 2, b.vals.getD 0 0 = x := by
+  rw [summary_l2, mem_uniq, List.mem_flatMap]
+  constructor
+  · rintro ⟨r, hr, hx⟩
+    unfold l2Of at hx
+    cases hd : r.vdr_dm_data with
+    | none => simp [hd] at hx
+    | some d =>
+      simp only [hd, List.mem_map] at hx
+      obtain ⟨b, hb, he⟩ := hx
+      exact ⟨r, hr, d, hd, b, hb, he⟩
+  · rintro ⟨r, hr, d, hd, b, hb, he⟩
+    exact ⟨r, hr, by simp only [l2Of, hd, List.mem_map]; exact ⟨b, hb, he⟩⟩
+
+theorem l2_targets_nodup (l : List Rpu) : (summary l).l2Targets.Nodup := by
+  rw [summary_l2]; exact uniq_nodup _
+
+/-- **mem_l6_list_iff** — an L6 value list is in the summary's L6 list iff it is the L6 block of some frame; the
+list has no duplicates -/
+theorem mem_l6_list_iff (l : List Rpu) (x : List Int) :
+    x ∈ (summary l).l6 ↔ ∃ r ∈ l, ∃ d b, r.vdr_dm_data = some d ∧ d.getBlock 6 = some b ∧ b.vals = x := by
+  rw [summary_l6, mem_uniq, List.mem_filterMap]
+  constructor
+  · rintro ⟨r, hr, hx⟩
+    unfold l6Of at hx
+    cases hd : r.vdr_dm_data with
+    | none => simp [hd] at hx
+    | some d =>
+      cases hb : d.getBlock 6 with
+      | none => simp [hd, hb] at hx
+      | some b => exact ⟨r, hr, d, b, hd, hb, by simpa [hd, hb] using hx⟩
+  · rintro ⟨r, hr, d, b, hd, hb, he⟩
+    exact ⟨r, hr, by simp [l6Of, hd, hb, he]⟩
+
+theorem l6_list_nodup (l : List Rpu) : (summary l).l6.Nodup := by
+  rw [summary_l6]; exact uniq_nodup _
+
+/-- the mastering-display (source min/max PQ) pairs of the summary: exactly the pairs of the frames with DM data,
+without duplicates -/
+theorem mem_source_pq_iff (l : List Rpu) (x : Int × Int) :
+    x ∈ (summary l).sourcePq ↔
+      ∃ r ∈ l, ∃ d, r.vdr_dm_data = some d ∧ (d.main.getD 29 0, d.main.getD 30 0) = x := by
+  rw [summary_src, (List.mergeSort_perm _ _).mem_iff, mem_uniq, List.mem_filterMap]
+  constructor
+  · rintro ⟨r, hr, hx⟩
+    unfold srcOf at hx
+    cases hd : r.vdr_dm_data with
+    | none => simp [hd] at hx
+    | some d => exact ⟨r, hr, d, hd, by simpa [srcOf, hd] using hx⟩
+  · rintro ⟨r, hr, d, hd, he⟩
+    exact ⟨r, hr, by simp only [srcOf, hd, Option.map_some, he]⟩
+
+theorem source_pq_nodup (l : List Rpu) : (summary l).sourcePq.Nodup := by
+  rw [summary_src, (List.mergeSort_perm _ _).nodup_iff]; exact uniq_nodup _
+
+/-- **dm_version_counts** — the DM-version line: with `v1` = number of frames with a CM v2.9 container and `v2` =
+number of frames with a CM v4.0 container, the summary says "2 (CM v4.0)" when `v2 = v1`, "1 (CM v2.9)" when
+`v2 = 0 ≠ v1`, and otherwise "1 + 2" with the two counts -/
+theorem dm_version_counts (l : List Rpu) :
+    ((summary l).dmCounts, (summary l).dmVersion) =
+      if v2Count l = v1Count l then (none, "2 (CM v4.0)")
+      else if v2Count l = 0 then (none, "1 (CM v2.9)")
+      else (some (v1Count l, v2Count l), "1 + 2 (CM 2.9 and 4.0)") :=
+  summary_dm l
+
+/-- … and when every frame with DM data has a CM v2.9 container (true of every parsed RPU) the first count is
+the number of frames with DM data, which the two kinds partition: frames with CM v2.9 only + frames with CM v4.0 -/
+theorem dm_version_counts_partition (l : List Rpu)
+    (h : ∀ r ∈ l, ∀ d, r.vdr_dm_data = some d → d.cmv29.isSome = true) :
+    v1Count l = (l.filter fun r => r.vdr_dm_data.isSome).length ∧
+    (l.filter fun r => hasCm29 r && !hasCm40 r).length + v2Count l = v1Count l ∧ v2Count l ≤ v1Count l :=
+  dm_counts_partition l h
+
+/-- **profiles** — the numbers in the profile line (`uniqSorted` of the per-frame `dovi_profile`; the line is
+`"Profile: "`/`"Profiles: "` + these joined by `", "`) are exactly the distinct profiles of the frames, ascending -/
+theorem summary_profiles_list (l : List Rpu) :
+    (∀ p, p ∈ uniqSorted (l.map (·.dovi_profile)) ↔ ∃ r ∈ l, r.dovi_profile = p) ∧
+    (uniqSorted (l.map (·.dovi_profile))).Pairwise (· < ·) := by
+  refine ⟨fun p => ?_, uniqSorted_ascending _⟩
+  rw [mem_uniqSorted, List.mem_map]
+
+/-- the profile line when no frame is profile 7 (more precisely: when the digit 7 does not occur in it) -/
+theorem summary_profiles_str (l : List Rpu)
+    (h7 : (joinComma ((uniqSorted (l.map (·.dovi_profile))).map toString)).toList.contains '7' = false) :
+    (summary l).profiles =
+      (if ((joinComma ((uniqSorted (l.map (·.dovi_profile))).map toString)).splitOn ", ").length > 1
+       then "Profiles: " else "Profile: ") ++ joinComma ((uniqSorted (l.map (·.dovi_profile))).map toString) := by
+  refine summary_cases l (fun s => s.profiles = _) (fun _ _ => ?_)
+  simp only [profilesStr, h7, Bool.false_eq_true, if_false]
+
+/-- non-vacuity: a mixed list (CM v2.9 + CM v4.0 frames, two L2 targets, one L6, L1 on one frame) -/
+example :
+    let f (bs : List Block) (c40 : Option Container) : Rpu :=
+      { dovi_profile := 8, vdr_dm_data := some { cmv29 := some { num_ext_blocks := bs.length, blocks := bs }, cmv40 := c40 } }
+    let l := [f [{ level := 1, length := 5, vals := [0, 3000, 1500] }, { level := 2, length := 11, vals := [2081, 0, 0, 0, 0, 0, 0] }] none,
+              f [{ level := 2, length := 11, vals := [2851, 0, 0, 0, 0, 0, 0] }, { level := 6, length := 8, vals := [1000, 1, 800, 400] }] (some {}),
+              { dovi_profile := 5 }]
+    (summary l).maxL1 = (0, 3000, 1500) ∧ (summary l).l2Targets = [2081, 2851] ∧ (summary l).l6 = [[1000, 1, 800, 400]] ∧
+    (summary l).dmCounts = some (2, 1) := by decide
 
 end Dovi.C16
